@@ -69,7 +69,7 @@ RowRec(f, op, v) ==
   ELSE LET sdwa == f = "vop2" /\ op \notin VOP2KOps /\ v % 3 = 0
            fv == IF sdwa THEN [RowFields(f, op, v) EXCEPT !.src0 = 249] ELSE RowFields(f, op, v)
            x  == IF sdwa THEN SdwaDword(op, v) ELSE P(Dwords, H(op, v, 11))
-           c  == IF f = "flat" THEN H(op, v, 12) % 2 ELSE 0
+           c  == IF f = "flat" \/ (f = "vop1" /\ op = 56) THEN H(op, v, 12) % 2 ELSE 0
            d  == Decode(AsmFields(f, fv, x), c = 1)
        IN IF d.k = "inst" THEN [k |-> "row", c |-> c, b |-> Encode(d), want |-> d]
           ELSE [k |-> "und", f |-> f, op |-> op, why |-> d.why]
